@@ -783,6 +783,13 @@ class Exec:
             if hook is not None:
                 return hook(self, fr, op, a, b)
             raise Unsupported("set comparison")
+        if isinstance(a, (Seq, Ref)) or isinstance(b, (Seq, Ref)):
+            # array-style comparison (numpy broadcasting) is library vocabulary: only a contract's hook can give it a meaning
+            hook = getattr(self.spec, "compare", None)
+            r = hook(self, fr, op, a, b) if hook is not None else NotImplemented
+            if r is NotImplemented:
+                raise Unsupported("ordering comparison involving a sequence")
+            return r
         if isinstance(a, (int, float)) and isinstance(b, (int, float)) and not is_z3(a) and not is_z3(b):
             return {ast.Lt: a < b, ast.LtE: a <= b, ast.Gt: a > b, ast.GtE: a >= b}[type(op)]
         lt = getattr(self.spec, "order", None)
